@@ -350,7 +350,11 @@ pub fn gen_btor2(rng: &mut StdRng) -> Vec<u8> {
         id += rng.gen_range(1..3);
         let a = rng.gen_range(1..=id);
         let b = rng.gen_range(1..=id);
-        let line = match rng.gen_range(0..16) {
+        let line = match rng.gen_range(0..19) {
+            // long constants of every base (scanned with word-at-a-time loops in some implementations)
+            16 => format!("{} const {} {}", id, a, "10".repeat(rng.gen_range(8..40))),
+            17 => format!("{} consth {} {}", id, a, "0123456789abcdefABCDEF".chars().cycle().skip(rng.gen_range(0..22)).take(rng.gen_range(16..70)).collect::<String>()),
+            18 => format!("{} constd {} {}{}", id, a, ["", "-"][rng.gen_range(0..2)], "9876543210".repeat(rng.gen_range(2..7))),
             0 => format!("{} sort bitvec {}", id, [1u64, 8, 32, 64][rng.gen_range(0..4)]),
             1 => format!("{} sort array {} {}", id, a, b),
             2 => format!("{} input {}", id, a),
